@@ -223,10 +223,12 @@ func ResponseDecoder(resp *http.Response) Decoder {
 func ErrorEncoder(encoder func(context.Context, http.ResponseWriter) Encoder, formatter func(ctx context.Context, err error) Statuser) func(context.Context, http.ResponseWriter, error) error {
 	return func(ctx context.Context, w http.ResponseWriter, err error) error {
 		enc := encoder(ctx, w)
-		if formatter == nil {
-			formatter = NewErrorResponse
+		// do not assign to formatter: the closure is shared by all requests
+		format := formatter
+		if format == nil {
+			format = NewErrorResponse
 		}
-		resp := formatter(ctx, err)
+		resp := format(ctx, err)
 		w.WriteHeader(resp.StatusCode())
 		return enc.Encode(resp)
 	}
